@@ -5,7 +5,7 @@ from typing import Any
 
 from ..absint import AObj
 from ..card import D, domain_wf, kind
-from ..codec import Codec, NAME_CLASSES, ctc_model, name_model
+from ..codec import Codec, operator_trees, NAME_CLASSES, ctc_model, name_model
 from ..core import AnalysisError, Ctx, loc
 from ..logic import BINARY_LOGICAL
 from ..model import ModelBuilder
@@ -91,9 +91,7 @@ def check(pm: ProgramModel, ctx: Ctx) -> None:
     # operators
     n, o = mb.node, mb.op
     for op in BINARY_LOGICAL:
-        roots = [(f"c_{op}", n(o(op), n("A"), n("B"))),
-                 (f"nested_{op}", n(o(op), n(o("NOT"), n("A")), n(o("AND"), n("B"), n("C")))),
-                 (f"inner_{op}", n(o("OR"), n(o(op), n("A"), n("B")), n("C")))]
+        roots = operator_trees(mb, op)
         cd.report("VOC", f"operator:{op}", cd.roundtrip(ctc_model(mb, roots)), f"constraints over {op}",
                   ("constraint", "constraint-count"))
     cd.report("VOC", "operator:NOT+literal",
